@@ -5,7 +5,7 @@ use super::{Property, Tier, Verdict};
 use crate::entropy::Rng;
 use crate::exec::{ForgeFrom, ForgeTid, Op, RunLog, Scenario};
 use crate::krpc::{id20, parse_values, Msg};
-use crate::log::{ApiEv, EpKind, Ev};
+use crate::log::{ApiEv, Ev};
 use crate::stubs::{Answer, NodeRef, NodesMode, ReplyKind, StubCfg};
 use serde_json::json;
 use std::collections::BTreeMap;
@@ -50,6 +50,23 @@ pub fn reconstruct(sc: &Scenario, run: &RunLog) -> Vec<Search> {
     let stalls = sc.net.stall_ppm > 0
         || sc.net.explicit.as_ref().map(|l| l.iter().any(|f| matches!(f.kind, crate::net::FaultKind::Stall { .. }))).unwrap_or(false);
     let addr_of: Vec<SocketAddr> = sc.reals.iter().map(|r| r.addr).collect();
+    // With a stalled socket the handler can be busy for seconds: a datagram delivered at t is
+    // processed later, possibly after queries that were sent after t. In stall runs a response is
+    // therefore also attributed to a query of the same search sent AFTER its delivery ("either way").
+    let mut later_queries: BTreeMap<(usize, Vec<u8>), u64> = BTreeMap::new();
+    if stalls {
+        for e in &run.log {
+            if let Ev::Send { t, src, bytes, .. } = e {
+                if let Some(ni) = addr_of.iter().position(|a| a == src) {
+                    if let Some(m) = Msg::parse(bytes) {
+                        if m.qname() == Some("get_peers") {
+                            later_queries.entry((ni, m.t.clone())).or_insert(*t);
+                        }
+                    }
+                }
+            }
+        }
+    }
     for e in &run.log {
         match e {
             Ev::Api { t, step, ev } => match ev {
@@ -96,12 +113,28 @@ pub fn reconstruct(sc: &Scenario, run: &RunLog) -> Vec<Search> {
                     }
                 }
             }
-            Ev::Deliver { t, src, dst, bytes, dst_kind: EpKind::Real, corrupted, .. } => {
+            // attribution uses the instant (and order) at which the node took the datagram off its
+            // socket, not the instant the network delivered it
+            Ev::Recv { t, src, dst, bytes, corrupted, .. } => {
                 if let Some(ni) = addr_of.iter().position(|a| a == dst) {
                     let cut = &bytes[..bytes.len().min(1500)];
                     if let Some(m) = Msg::parse_lenient(cut) {
                         if let Some(r) = m.resp() {
                             for s in out.iter_mut().filter(|s| s.node == ni) {
+                                let early = !s.queries.contains_key(&m.t) && s.t_end.is_none() && later_queries.get(&(ni, m.t.clone())).map(|tq| *tq >= s.t_call).unwrap_or(false);
+                                if early {
+                                    // delivered before its query was sent, processed who knows when
+                                    s.resps.push(Resp {
+                                        t: *t,
+                                        tid: m.t.clone(),
+                                        src: *src,
+                                        id: r.get("id").and_then(id20),
+                                        values: r.get("values").and_then(parse_values).unwrap_or_default(),
+                                        token: r.get("token").and_then(|x| x.as_bytes()).map(|b| b.to_vec()),
+                                        class: 1,
+                                    });
+                                    continue;
+                                }
                                 if let Some(tq) = s.queries.get(&m.t).copied() {
                                     let closed = s.t_end.map(|te| *t > te).unwrap_or(false);
                                     // a stalled socket keeps the handler busy, so a time-out can be
